@@ -108,4 +108,84 @@ theorem semiOctets_length (ds : List Nat) : (semiOctets ds).length = (ds.length 
   | case2 a => simp
   | case3 => simp
 
+/-! ## SC address (RP layer) -/
+
+
+theorem toa_bits' : ∀ t : Fin 8, ∀ n : Fin 16,
+    (toa t.val n.val &&& (0x0F : UInt8)) = UInt8.ofNat n.val ∧
+    ((toa t.val n.val >>> (4 : UInt8)) &&& (0x07 : UInt8)) = UInt8.ofNat t.val ∧
+    ((UInt8.ofNat n.val &&& (0x0F : UInt8)) ||| ((UInt8.ofNat t.val &&& (0x07 : UInt8)) <<< (4 : UInt8)) ||| (0x80 : UInt8)) = toa t.val n.val := by
+  decide +kernel
+
+theorem rdN_exact' (a rest : Bytes) (h : a ≠ []) : rdN a.length (a ++ rest) = .ok (a, rest) := by
+  unfold rdN
+  have h1 : a.length ≠ 0 := by
+    intro h0; exact h (List.length_eq_zero_iff.mp h0)
+  simp only [h1, ↓reduceIte]
+  have h2 : (a ++ rest).isEmpty = false := by
+    cases a with
+    | nil => exact absurd rfl h
+    | cons x xs => rfl
+  simp [h2]
+
+/-- SC address, decoding: length octet counts the type octet and the digit octets -/
+theorem sc_decode (rev : List Nat) (escs : List (Nat × Nat)) (ton npi : Nat) (ds : List Nat) (rest : Bytes)
+    (hton : ton < 8) (hnpi : npi < 16) (hnot5 : ton ≠ 5) (hds : ∀ d ∈ ds, d ≤ 9) (hlen : 1 ≤ ds.length ∧ ds.length ≤ 20) :
+    readSCAddr rev escs (scAddressField (some ⟨ton, npi, .digits ds⟩) ++ rest)
+      = .ok (⟨UInt8.ofNat npi, UInt8.ofNat ton, ds.map (· + 48)⟩, rest) := by
+  obtain ⟨hb1, hb2, _⟩ := toa_bits' ⟨ton, hton⟩ ⟨npi, hnpi⟩
+  simp only at hb1 hb2
+  have hsemi : (semiOctets ds).length = (ds.length + 1) / 2 := semiOctets_length ds
+  have hne : semiOctets ds ≠ [] := by
+    intro h; rw [h] at hsemi; simp at hsemi; omega
+  have hl : (UInt8.ofNat (1 + (ds.length + 1) / 2)).toNat = 1 + (ds.length + 1) / 2 := by
+    simp [UInt8.toNat_ofNat']; omega
+  have hl0 : UInt8.ofNat (1 + (ds.length + 1) / 2) ≠ 0 := by
+    intro h
+    have := congrArg UInt8.toNat h
+    rw [hl] at this
+    simp at this
+  have hton5 : UInt8.ofNat ton ≠ 5 := by
+    intro h
+    have := congrArg UInt8.toNat h
+    simp [UInt8.toNat_ofNat'] at this
+    omega
+  unfold readSCAddr scAddressField
+  simp only [List.cons_append, rdByte, hl0, ↓reduceIte, hb1, hb2, hl]
+  have : 1 + (ds.length + 1) / 2 - 1 = (semiOctets ds).length := by rw [hsemi]; omega
+  rw [this, rdN_exact' _ _ hne]
+  simp only [decodeNo, hton5, ne_eq, not_false_eq_true, ↓reduceIte, decodeSemiAddress_spec ds hds]
+
+/-- SC address, encoding -/
+theorem sc_encode (rev : List Nat) (escs : List (Nat × Nat)) (ton npi : Nat) (ds : List Nat)
+    (hton : ton < 8) (hnpi : npi < 16) (hnot5 : ton ≠ 5) (hds : ∀ d ∈ ds, d ≤ 9) (hlen : 1 ≤ ds.length ∧ ds.length ≤ 20) :
+    writeSCAddr rev escs ⟨UInt8.ofNat npi, UInt8.ofNat ton, ds.map (· + 48)⟩ = scAddressField (some ⟨ton, npi, .digits ds⟩) := by
+  obtain ⟨_, _, hb3⟩ := toa_bits' ⟨ton, hton⟩ ⟨npi, hnpi⟩
+  simp only at hb3
+  have hton5 : UInt8.ofNat ton ≠ 5 := by
+    intro h
+    have := congrArg UInt8.toNat h
+    simp [UInt8.toNat_ofNat'] at this
+    omega
+  have hne : (ds.map (· + 48)).isEmpty = false := by
+    cases ds with
+    | nil => simp at hlen
+    | cons d r => rfl
+  have hall : (ds.map (· + 48)).all (fun r => decide (48 ≤ r) && decide (r ≤ 57)) = true := by
+    simp only [List.all_map, List.all_eq_true]
+    intro d hd
+    have := hds d hd
+    simp; omega
+  have hdig : (ds.map (· + 48)).map (fun r => UInt8.ofNat (r - 48)) = ds.map (fun d => UInt8.ofNat d) := by
+    simp [List.map_map, Function.comp_def]
+  have hsemi : (semiOctets ds).length = (ds.length + 1) / 2 := semiOctets_length ds
+  unfold writeSCAddr addrBinary encodeSemiAddress scAddressField
+  simp only [hne, Bool.false_eq_true, ↓reduceIte, hton5, ne_eq, not_false_eq_true, hall, hdig, Option.getD_some,
+    packDigits_spec ds hds, hb3, hsemi]
+  congr 1
+  apply UInt8.toNat_inj.mp
+  simp [UInt8.toNat_ofNat', UInt8.toNat_add]
+  omega
+
+
 end Smpp.Sms
